@@ -206,7 +206,32 @@ def _summarize(c, rep):
         'slow_queries': [list(q) for q in rep.slow_queries[:20]],
         'uncovered': rep.uncovered,
         'deps_sha': rep.deps_sha,
+        'dep_shas': rep.dep_shas,
     }
+
+
+def _lost_obligations(qname, have, why):
+    """A function that was verified on the pinned tree cannot be brought through the verifier any more
+    (construct outside the supported subset, loop or contract predicate that no longer fits, verifier error)
+    AND the source text its obligations were generated from has changed: every obligation that was discharged
+    on the pinned tree and is not re-established now is reported as no longer proved (DESIGN 2.9: a violation
+    without failing input).  On unchanged sources the same failure stays a checker problem (exit 2 / 3)."""
+    from . import verify as _v
+    base = (_BASELINE.get('__functions__') or {}).get(qname)
+    if not base:
+        return []
+    changed = sorted((q or qname) for q, sha in base.items()
+                     if _v.source_sha_of(q or qname.split('#')[0]) != sha)
+    if not changed:
+        return []
+    out = []
+    for name, b in sorted(_BASELINE.items()):
+        if name.startswith(qname.split('#')[0] + ' : ') and isinstance(b, dict) and b.get('status') == 'unsat' and name not in have:
+            out.append({'obligation': name, 'function': qname, 'regressed': True,
+                        'detail': {'reason': 'discharged on the pinned tree (%s); the source it was generated from has '
+                                             'changed (%s) and the verifier can no longer establish it: %s'
+                                             % (b.get('backend'), ', '.join(changed)[:300], why)}})
+    return out
 
 
 def _jsonable(x):
@@ -380,9 +405,16 @@ def report(prop, mine, results, missing, seed, wall, args):
     vcs = 0
     bounded_all = []
     baseline_out = {}
+    baseline_fns = {}
     for r in results:
         if 'crash' in r:
-            crashes.append((r.get('qname') or r.get('name'), r['crash']))
+            lost = _lost_obligations(r['qname'], set(), 'verifier error: ' + r['crash'][-600:]) \
+                if r.get('qname') else []
+            if lost:
+                refuted.extend(lost)
+                obligations += len(lost)
+            else:
+                crashes.append((r.get('qname') or r.get('name'), r['crash']))
             continue
         if r['kind'] == 'function':
             rep = r['rep']
@@ -407,16 +439,29 @@ def report(prop, mine, results, missing, seed, wall, args):
                 if c is not None and c.trusted:
                     assumed_contracts.add(q)
             samples.extend(rep['samples'][:1])
-            if rep['unsupported']:
+            baseline_fns[rep['qname']] = rep.get('dep_shas') or {}
+            lost = []
+            if rep['unsupported'] or rep['errors']:
+                why = ('unsupported: ' + '; '.join(sorted(set(rep['unsupported']))[:5])) if rep['unsupported'] \
+                    else 'verifier error: ' + rep['errors'][0][-600:]
+                lost = _lost_obligations(rep['qname'], set(n for n, cl in rep['clauses'].items()
+                                                          if cl['status'] in ('unsat', 'sat', 'regressed')), why)
+                refuted.extend(lost)
+            if rep['unsupported'] and not lost:
                 undecided.append((rep['qname'], 'unsupported: ' + '; '.join(sorted(set(rep['unsupported']))[:5])))
-            if rep['errors']:
+            if rep['errors'] and not lost:
                 crashes.append((rep['qname'], '\n'.join(rep['errors'][:3])))
-            if rep['paths'] == 0 and not rep['unsupported'] and not rep['errors']:
+            if lost:
+                # the obligations of the pinned tree that can no longer be generated are reported (below);
+                # what was generated on the paths that could be explored is kept
+                obligations += len(lost)
+                rep = dict(rep, unsupported=[], errors=[], uncovered=[])
+            if rep['paths'] == 0 and not rep['unsupported'] and not rep['errors'] and not lost:
                 crashes.append((rep['qname'], 'vacuous: no feasible path (contradictory precondition?)'))
             if rep.get('uncovered'):
                 crashes.append((rep['qname'], 'vacuous: return/raise never reached on a feasible path (cut off by an '
                                               'assumption?): ' + '; '.join(rep['uncovered'])))
-            if not rep['clauses'] and not rep['unsupported'] and not rep['errors']:
+            if not rep['clauses'] and not rep['unsupported'] and not rep['errors'] and not lost:
                 crashes.append((rep['qname'], 'vacuous: zero obligations generated'))
             for name, cl in rep['clauses'].items():
                 obligations += 1
@@ -467,12 +512,14 @@ def report(prop, mine, results, missing, seed, wall, args):
             violations.append(rf)
 
     if args.write_baseline and not args.only:
+        baseline_out['__functions__'] = baseline_fns
         os.makedirs(os.path.join(VERIF, 'baseline'), exist_ok=True)
         with open(os.path.join(VERIF, 'baseline', prop + '.json'), 'w') as f:
             json.dump(baseline_out, f, indent=1, sort_keys=True)
     # obligations of the pinned tree that were not generated at all on this run
+    reported = set(rf['obligation'] for rf in refuted)
     for name, b in _BASELINE.items():
-        if b.get('status') == 'unsat' and name not in baseline_out and not args.only \
+        if b.get('status') == 'unsat' and name not in baseline_out and name not in reported and not args.only \
                 and not any(name == u[0] for u in undecided):
             fn = name.split(' : ')[0]
             if not any(fn == u[0] or fn in str(u[0]) for u in undecided) and not any(fn == c[0] for c in crashes):
